@@ -696,7 +696,7 @@ impl Engine for C16 {
                     (case["out_pol"] == 2 && !p.written[1].is_empty()) || (case["err_pol"] == 2 && !p.written[2].is_empty())
                 });
                 res.nontrivial = wrote_captured || class != "complete";
-                res.count("probe_child_not_reaped_at_return", u64::from(w.procs.first().is_some_and(|p| !p.reaped)));
+                res.count("info_child_not_reaped_at_return", u64::from(w.procs.first().is_some_and(|p| !p.reaped)));
                 // probes for the races the property is about
                 if let Some(p) = p {
                     let cap = case["cap"].as_u64().unwrap() as usize;
